@@ -26,20 +26,20 @@ def demo_cmd(path):
     cmd, on, cont = [], False, False
     for l in lines:
         t = re.sub(r'^\s*(/\*+|\*+/?|//)\s?', '', l).rstrip()
-        if not on and re.match(r'\s*(\$ )?(gcc|cc|clang)\b', t):
-            on = True
-        if on:
-            if not t.strip():
-                break
-            piece = t.strip()
-            if piece.startswith('$ '):
-                piece = piece[2:]
-            cont = piece.endswith('\\')
-            cmd.append(piece.rstrip('\\').strip())
-            if not cont and not piece.endswith('&&'):
-                # a following line belongs to the command only if it continues it
-                nxt_ok = False
-            continue
+        piece = t.strip()
+        if piece.startswith('$ '):
+            piece = piece[2:]
+        if not on:
+            if re.match(r'(gcc|cc|clang)\b', piece):
+                on = True
+            else:
+                continue
+        elif not (cont or piece.startswith('&&') or piece.startswith('||')):
+            break                      # the command ended on the previous line
+        if not piece:
+            break
+        cont = piece.endswith('\\') or piece.endswith('&&')
+        cmd.append(piece.rstrip('\\').strip())
     return ' '.join(cmd)
 
 
